@@ -495,7 +495,7 @@ def run_history(rec, tap, rng, cid):
     elif rng.random() < .12:
         # plateau search, then only the lower range bound is changed (a
         # documented don't-care) - including to a value above the upper one
-        b = float(rng.choice([1e-6, 2e-6, 5e-7]))
+        b = float(rng.choice([1e-6, 2e-6, 5e-7, 0.0]))
         a = float(rng.choice([5e-6, 3e-6, -1e-6, -3e-6, 1.5e-6]))
         second = ("fit", {"range_x": [a, b]}) if rng.random() < .5 else \
             ("edit", {"range_x": [a, b]})
@@ -564,7 +564,7 @@ def run_history(rec, tap, rng, cid):
                 % desc["n"], "history": hist}, limit=2)
 
 
-def run_shard(rec, tier, seed, shard, nshards):
+def _run_shard(rec, tier, seed, shard, nshards):
     with fitlab.MinimizeTap() as tap:
         for i in range(N_HIST[tier]):
             run_history(rec, tap, core.case_rng(seed, ID, shard, i),
@@ -577,3 +577,11 @@ def replay(rec, case):
     with fitlab.MinimizeTap() as tap:
         run_history(rec, tap, core.case_rng(case["seed"], ID, cid[0], cid[1]),
                     cid)
+
+
+def run_shard(rec, tier, seed, shard, nshards):
+    state0 = core.library_state()
+    try:
+        _run_shard(rec, tier, seed, shard, nshards)
+    finally:
+        core.check_library_state(rec, state0, {"id": [shard, -1]})
